@@ -13,7 +13,8 @@ EXPLANATION = (
     "iteration for every browsed type / open resolver and all returned times are armed; (d) eviction on every iteration "
     "(C05b); (e) the cache-flush one-second rule (C03e).  Decides that the code computes these formulas and visits them "
     "every iteration, not when something happens for a given TTL and observation sequence."
-    " (f) A matched cached record always gets reset_ttl(incoming).")
+    " (f) A matched cached record always gets reset_ttl(incoming)."
+    " (g) Expiry times only move forward outside reset_ttl. In run, refresh_active_services comes before the hostname-resolver refresh in every iteration (they share a record's refresh mark; the resolver step disarms it), wherever the steps live (inline or helper).")
 UNDECIDED = ["when something happens for a given TTL and observation sequence (skipped marks, restart after an answer, u32::MAX TTLs) — run-time quantities",
              "that a fresh copy restarts the schedule as a trace property (only reset_ttl's formula is decided)"]
 
@@ -207,12 +208,17 @@ def clause_c(ctx, P):
             # unconditional inside the per-type loop
             if h is not None:
                 se = guard_edges(P, f, lambda atom, outcome, bb: bb in floops[h] and atom[0] == "variant" and outcome == frozenset(["Some"]) and has_call(atom[1], "::next") and all(is_field_expr(x, "service_queriers", "Zeroconf") for x in iter_base(atom[1])))
+                # the one legitimate skip: a cache-only browser (C13: it never sends a query)
+                from .c13 import cache_only_marker
+                mk = cache_only_marker(P)
+                skip = guard_edges(P, f, lambda atom, outcome, bb: mk is not None and atom[0] == "call" and method(strip_generics(atom[1])) == "contains" and
+                                   expr_mentions_field(atom, mk, "Zeroconf") and outcome is True)
                 for (bb, tgt) in se:
-                    if h in f.reachable(tgt, removed_blocks=[b]):
+                    if h in f.reachable(tgt, removed_blocks=[b], removed_edges=skip):
                         ok = False
             else:
                 ok = False
-        ctx.ob("C11c.refresh-covers", "%s|%s" % (f.name, callee.split("::")[-1]), ok, f.loc(), "%s is called for every browsed type on every pass" % callee.split("::")[-1])
+        ctx.ob("C11c.refresh-covers", "%s|%s" % (f.name, callee.split("::")[-1]), ok, f.loc(), "%s is called for every browsed type (cache-only browsers excepted) on every pass" % callee.split("::")[-1])
     adds = calls_to(f, "Zeroconf::add_timer")
     ok = False
     for (b, t) in adds:
